@@ -65,7 +65,7 @@ func sweepReplay(lg *sim.Log, path string, max int, seed int64) (int, error) {
 			users = append(users, fmt.Sprintf("u%d", k))
 		}
 		cfg := Config{Bonus: fr(0, 1), DecC: 1, DecA: 1, DecS: 1, DecU: 1, DrawFee: fr(0, 1), CloseFee: fr(0, 1), StabFee: fr(0, 1), Batch: d.B, Duration: 3600,
-			Users: users, FundColl: 5000, FundDebt: 500}
+			Users: users, FundColl: 5000, FundDebt: 500, Decoy: n%4 >= 2}
 		w := Setup(cfg)
 		run := "sweep" + d.Kind
 		par := rootNode(lg, w, run)
